@@ -1328,10 +1328,25 @@ def run_c16(ctx):
         M = G.gen_mesh(rng, max_cells=5)
         N = G.copy_mesh(M)
         kind = rng.choice(["same", "noise", "move", "rewire", "remove_cell", "drop_block", "add_block", "swap_compat", "extra_point",
-                           "compat_twins"])
+                           "compat_twins", "empty_block+rewire"])
         tol = G.dyadic_tol(M)
         if kind == "compat_twins":
             if not compat_twins(rng, M, N):
+                kind = "same"
+        elif kind == "empty_block+rewire":
+            # both meshes list a cell type without any cell (e.g. what is left of a filtered block); they differ in another type
+            have = {t for t, _ in M["blocks"]}
+            spare = [x for x in ("TRIANGLE", "LINE", "QUAD", "VERTEX") if x not in have and G.COMPAT.get(x) not in have]
+            t_, rows_ = rng.choice(N["blocks"])
+            row_ = rng.choice(rows_)
+            cand_ = [c for c in range(len(N["pts"])) if c not in row_]
+            if spare and cand_:
+                row_[rng.randrange(len(row_))] = rng.choice(cand_)
+                pos = rng.randrange(len(M["blocks"]) + 1)
+                e_ = rng.choice(spare)
+                M["blocks"].insert(pos, [e_, []])
+                N["blocks"].insert(rng.choice([pos, rng.randrange(len(N["blocks"]) + 1)]), [e_, []])
+            else:
                 kind = "same"
         elif kind == "noise":
             G.add_noise(rng, N, tol / 4096)
@@ -1477,6 +1492,24 @@ def run_c16(ctx):
             want = abs(y - x) <= max(Fr(rel_set) * max(x, y), Fr(abs_set))
         ctx.case(canon, True, sample={"rel_tol": rel_set, "abs_tol": abs_set, "on_view": view, "impl": got, "statement": want})
         ctx.count(f"c16:user tolerances:{'view' if view else 'mesh'}:rel={rel_set}")
+        # the views made by the public transformations carry the tolerances of the mesh they wrap
+        try:
+            with quiet():
+                warnings.simplefilter("ignore")
+                from fieldcompare.mesh import sort_points as _sp, sort_cells as _sc, MeshFields as _MF
+                base_mesh = G.to_fieldcompare(M).domain
+                if rel_set is not None:
+                    base_mesh.set_tolerances(abs_tol=abs_set, rel_tol=rel_set)
+                fbase = _MF(base_mesh, {}, {})
+                for mk in (_sp, _sc):
+                    vd = mk(fbase).domain
+                    if (float(vd.relative_tolerance), float(vd.absolute_tolerance)) != (float(base_mesh.relative_tolerance), float(base_mesh.absolute_tolerance)):
+                        ctx.violation("E4", f"the view made by {mk.__name__} reports tolerances (rel {float(vd.relative_tolerance)!r}, abs "
+                                            f"{float(vd.absolute_tolerance)!r}) other than those of the mesh it wraps (rel "
+                                            f"{float(base_mesh.relative_tolerance)!r}, abs {float(base_mesh.absolute_tolerance)!r})", canon)
+                        break
+        except Exception as e:  # noqa: BLE001
+            ctx.violation("E4", f"sorting a mesh with user tolerances raised {type(e).__name__}: {e}", canon)
         if seen is not None and seen != (float(rel_set), float(abs_set)):
             ctx.violation("E4", f"the tolerances set on the mesh ({rel_set}, {abs_set}) are not the ones it reports ({seen[0]}, {seen[1]})",
                           canon)
@@ -1708,13 +1741,15 @@ def cli_dimension_stream(ctx, n):
                     os.chdir(cwd)
             for mode in ("file", "dir"):
                 for disabled in (False, True):
+                    with_diff = rng.random() < 0.4       # asking for the difference file does not change the verdict
                     args = ([mode, os.path.join(d, "res", "grid.xdmf"), os.path.join(d, "ref", "grid.xdmf")] if mode == "file"
                             else [mode, os.path.join(d, "res"), os.path.join(d, "ref")])
                     args += ["--verbosity", "0"] + (["--disable-mesh-space-dimension-matching"] if disabled else [])
+                    args += ["--diff"] if with_diff else []
                     with quiet():
                         warnings.simplefilter("ignore")
                         rc, log, exc = run_cli(args)
-                    canon = {"cli": mode, "disable_space_dimension_matching": disabled, "low_is_source": low_is_source, "nx": nx,
+                    canon = {"cli": mode, "disable_space_dimension_matching": disabled, "low_is_source": low_is_source, "nx": nx, "diff": with_diff,
                              "u": [float(x) for x in u], "v": [[float(x) for x in r] for r in v2]}
                     ctx.case(canon, True, sample={"cli": mode, "disabled": disabled, "low_is_source": low_is_source, "exit": rc})
                     ctx.count(f"c17 cli:{mode}:{'disabled' if disabled else 'enabled'}")
